@@ -363,6 +363,17 @@ theorem wellformed_defaults_example :
     inWfFragment exDefaults = true ∧ wfOf exDefaults = true
     ∧ (toSchema exDefaults).2.length = 1 := by decide
 
+/-- classes with defaults are inside `schema_admits_partial`: the `default` written into a property
+    schema is ignored by the validator, the defaulted fields are required by the schema and present in
+    every instance of the region -/
+theorem admits_defaults_example :
+    inSchemaFragment exDefaults = true
+    ∧ inAdmitRegion exO exDefaults
+        (.inst "K" [("a", .int 1), ("c", .enumv "Color" "RED"), ("l", .list [.str "q"])]) = true
+    ∧ (match serialize exO exDefaults (.inst "K" [("a", .int 1), ("c", .enumv "Color" "RED"), ("l", .list [.str "q"])]) with
+       | .ok j => schemaAccepts exS exDefaults 1 j
+       | .error _ => false) = true := by decide
+
 /-- finding `ill-formed:default:not-json`: a default that is a list of enum members (or a set, a
     tuple) is written into the schema verbatim -/
 theorem counterexample_default_not_json :
